@@ -194,6 +194,9 @@ def _arr_of(cells):
 
 
 def impl(case):
+    if case.get('kind') == 'round':
+        # np.round itself on exactly representable rationals (the primitive `C04.roundHalfEven` stands for)
+        return [int(x) for x in np.round(np.array([n / d for n, d in case['qs']], dtype='float64'))]
     with C.scratch_dir() as d:
         out = _load_dir(d / 'ks', case['files'], case)
         if case.get('also_alf'):
@@ -230,6 +233,8 @@ def _frac(j):
 
 
 def model_query(case, impl_res):
+    if case.get('kind') == 'round':
+        return dict(p=PID, op='round', qs=[[int(n), int(d)] for n, d in case['qs']])
     files = []
     tden = _time_tokens(case)
     for name, f in case['files'].items():
@@ -254,6 +259,11 @@ def judge(case, impl_res, ans):
     if 'err' in ans:
         return 'MACHINERY: driver error %s' % ans['err']
     m = ans['ok']
+    if case.get('kind') == 'round':
+        if impl_res.get('ok') != m['model']:
+            return 'MACHINERY: np.round %s differs from the model\'s round-half-even %s on %s' % (
+                impl_res.get('ok'), m['model'], case['qs'])
+        return None
     if case.get('expect_reject'):
         if m.get('error') != 'non_monotone':
             return 'MACHINERY: model does not reject the non-monotonic case'
@@ -364,6 +374,8 @@ def classify(case, impl_res, ans, why):
 
 
 def shrink(case):
+    if case.get('kind') == 'round':
+        return
     optional = [n for n in case['files'] if n not in ('spike_times.npy', 'spike_templates.npy', 'channel_map.npy', 'channel_positions.npy',
                                                        'spikes.times.npy', 'spikes.templates.npy', 'channels.rawInd.npy',
                                                        'channels.localCoordinates.npy', 'templates.npy', 'templates.waveforms.npy')]
@@ -527,6 +539,24 @@ def make_case(rng, i):
             tags.append('extra_attr_underscore_names')
     if rng.random() < .2:
         files['spike_wrong.npy'] = F('float64', [ns + 1], [0.] * (ns + 1)); tags.append('extra_attr_wrong_length')
+    if i % 23 == 11 and not sparse:
+        # sparse templates with ONE local channel: the stored (nt, nsw, 1) / (nt, 1) arrays lose their last dimension
+        # when read and get it back (np.atleast_3d; `cols = np.atleast_2d(cols).T`, model.py:703, 721-722)
+        tn = N('templates.npy', 'templates.waveforms.npy')
+        files[tn] = F('float32', [nt, nsw, 1], [float(rng.randrange(-8, 9)) or 1. for _ in range(nt * nsw)])
+        files[N('template_ind.npy', 'templates.waveformsChannels.npy')] = F('int32', [nt, 1], [rng.randrange(nc) for _ in range(nt)])
+        tags[:] = [t for t in tags if t not in ('all_nan_template', 'some_nan_in_template', 'nan_channel_in_template')]
+        tags.append('sparse_one_local_channel')
+    if i % 29 == 13:
+        # no template file at all (and no curation): n_templates = highest template id + 1, zeros for the similarity
+        for n_ in [n for n in list(files) if n.startswith(('templates.', 'template_ind', 'spike_clusters', 'spikes.clusters',
+                                                           'pc_feature', 'similar_templates'))]:
+            del files[n_]
+        tags[:] = [t for t in tags if t not in ('all_nan_template', 'some_nan_in_template', 'nan_channel_in_template',
+                                                'sparse_templates', 'sparse_one_local_channel', 'features', 'similar', 'nan_in_similar')]
+        if 'no_spike_clusters' not in tags:
+            tags.append('no_spike_clusters')
+        tags.append('no_templates')
     case = dict(p=PID, files=files, rate=rate, ncd=ncd, offset=rng.pick([0, 0, 6]), tags=tags)
     if rng.random() < .5:
         n_raw = rng.randrange(70, 90)
@@ -600,6 +630,14 @@ def make_case(rng, i):
 
 def gen(tier, rng):
     q = tier == 'quick'
+    # np.round against the model's rounding: dyadic rationals with all fractional parts, both signs, ties
+    for _ in range(4 if q else 40):
+        qs = []
+        for _ in range(50):
+            den = 2 ** rng.randrange(0, 6)
+            qs.append([rng.randrange(-2000, 2000) if rng.random() < .8 else rng.randrange(-2 ** 40, 2 ** 40), den])
+        qs += [[2 * k + 1, 2] for k in range(-6, 6)]
+        yield dict(p=PID, kind='round', qs=qs, tags=['np_round_vs_model'])
     for i in range(400 if q else 6000):
         c = make_case(rng, i)
         st = c['files'].get('spike_times.npy')
